@@ -285,7 +285,9 @@ loop:
 					numSeries += len(r[i].Samples)
 				}
 
-				series = make([]promql.Series, numSeries)
+				if len(series) == 0 {
+					series = make([]promql.Series, numSeries)
+				}
 
 				for _, vector := range r {
 					for i := range vector.Samples {
